@@ -381,6 +381,19 @@ func (in *Interp[K, V]) RunRandom(family string, sid int, seed int64, steps int,
 
 func (g *rgen[K, V]) classCall(c csig) (Step, bool) {
 	var st = Step{K: c.k, M: c.m, EC: c.ec}
+	if c.k == "Set" && c.args == "TT" {
+		// set algebra is defined for operands ordered by the same collator
+		var a, ok = g.genArg('T', 0, c.ec[0])
+		if !ok {
+			return st, false
+		}
+		var coll = g.w[a.(int)-1].(map[string]any)["c"]
+		var b = g.pick(func(id int, o *obj) bool {
+			return o.kind == "Set" && o.ec == c.ec[0] && g.w[id-1].(map[string]any)["c"] == coll
+		})
+		st.Args = []any{a, b}
+		return st, b != 0
+	}
 	for i := 0; i < len(c.args); i++ {
 		var a, ok = g.genArg(c.args[i], 0, c.ec[0])
 		if !ok {
